@@ -77,6 +77,14 @@ var rmCmd = &cobra.Command{
 				// the path passed the validation above, so an earlier argument has already removed it
 				continue
 			}
+			// the arg is registered as a file: if the working tree holds a directory at that path now,
+			// or the path cannot be reached any more, only the entry is removed and the working tree is left alone
+			if f, err := os.Stat(arg); (err == nil && f.IsDir()) || (err != nil && !os.IsNotExist(err)) {
+				if err := client.Idx.DeleteEntry(client.RootGoitPath, []byte(cleanedDirArg)); err != nil {
+					return fmt.Errorf("fail to delete '%s' from the index: %w", cleanedDirArg, err)
+				}
+				continue
+			}
 
 			// if the arg is directory
 			if f, err := os.Stat(arg); !os.IsNotExist(err) && f.IsDir() {
